@@ -190,13 +190,10 @@ def e2e_history(seed):
     return {"records": cap.records, "messages": msgs, "secrets": sorted(secrets), "requests": n, "sample": None}
 
 
-def session_history(seed):
-    """The REAL KmipSession (its decode-failure and error logging included) in front of a real engine: valid
-    requests carrying canaries as key material / data, and mutants of them cut or corrupted inside the secret"""
-    import logging as lg
-    import impl_session as S
+def session_frames(r):
+    """frames carrying canaries as key material / data / passwords, and mutants of them cut or corrupted inside the
+    secret -> (frames, secrets)"""
     import gen_session as G
-    r = random.Random(seed)
     secrets, frames = set(), []
     sg = G.SessGen(r)
     for v in (10, 12, 14, 20):
@@ -251,6 +248,15 @@ def session_history(seed):
                                                        maxsize=ms)))
             except Exception:
                 pass
+    return frames, secrets
+
+
+def session_history(seed):
+    """The REAL KmipSession (its decode-failure and error logging included) in front of a real engine"""
+    import logging as lg
+    import impl_session as S
+    r = random.Random(seed)
+    frames, secrets = session_frames(r)
     rig = S.Rig()
     lg.disable(lg.NOTSET)
     cap = Capture()
@@ -273,6 +279,52 @@ def session_history(seed):
         root.removeHandler(cap)
         rig.close()
     return {"records": cap.records, "messages": msgs, "secrets": sorted(secrets), "requests": len(frames), "sample": None}
+
+
+def server_front_history(seed):
+    """The REAL KmipServer front end (server.py: configuration file, its own logging set-up, its own dedication of a
+    session thread to a connection) at its DEFAULT logging level - the configuration names none, or names INFO /
+    WARNING - embedded in an application with a handler of its own on the root logger (level NOTSET, as
+    logging.basicConfig() installs; the root logger keeps its level): whatever the server's loggers hand to ANY handler -
+    its own log file or the application's - is "its logs at the default level".  Same frames as `session_history`."""
+    import logging as lg
+    import impl_session as S
+    import server_front
+    r = random.Random(seed)
+    frames, secrets = session_frames(r)
+    level = [None, None, "INFO", "WARNING"][seed % 4]
+    lg.disable(lg.NOTSET)
+    cap = Capture()
+    cap.setLevel(lg.NOTSET)
+    root = lg.getLogger()
+    saved_root, saved_kmip = root.level, lg.getLogger("kmip").level
+    root.addHandler(cap)
+    root.setLevel(lg.WARNING)
+    lg.getLogger("kmip").setLevel(lg.NOTSET)
+    msgs, records = [], []
+    fs = None
+    try:
+        fs = server_front.FrontServer(logging_level=level)
+        conn = fs.serve([b"".join(frames)], S.make_cert())
+        for raw in conn.out:
+            try:
+                ob = S.decode_response(raw, 12)
+                for it in ob.get("items", []):
+                    if it.get("msg"):
+                        msgs.append(it["msg"])
+            except Exception:
+                pass
+        records = list(cap.records)
+        for ln in fs.log_text().splitlines():
+            records.append(("server-log-file", 20, "server.log", 0, ln))
+    finally:
+        root.removeHandler(cap)
+        root.setLevel(saved_root)
+        lg.getLogger("kmip").setLevel(saved_kmip)
+        if fs is not None:
+            fs.close()
+    return {"records": records, "messages": msgs, "secrets": sorted(secrets), "requests": len(frames), "sample": None,
+            "responses": len(conn.out) if fs is not None else 0}
 
 
 def client_config_history(seed):
@@ -361,6 +413,8 @@ def run(ctx):
         res += pool.map(e2e_history, [ctx.seed * 977 + i for i in range(16 if ctx.tier == "quick" else 200)])
         res += pool.map(session_history, [ctx.seed * 613 + i for i in range(8 if ctx.tier == "quick" else 100)])
         res += pool.map(client_config_history, [ctx.seed * 389 + i for i in range(4 if ctx.tier == "quick" else 60)])
+        front = pool.map(server_front_history, [ctx.seed * 211 + i for i in range(4 if ctx.tier == "quick" else 40)])
+        res += front
     nrec = nmsg = nsec = nreq = 0
     fired = set()
     for k, r in enumerate(res):
@@ -402,7 +456,11 @@ def run(ctx):
         "samples": [res[0]["sample"]], "log_records_scanned": nrec, "result_messages_scanned": nmsg,
         "canaries": nsec, "distinct_sites_fired": len(fired), "sites_in_table": len(table),
         "sites_at_info_or_above": sum(1 for v in table.values() if v[0] >= 20),
-        "traces_validated_against_impl": len(res)})
+        "traces_validated_against_impl": len(res),
+        "server_front_histories": len(front), "server_front_responses": sum(f.get("responses", 0) for f in front),
+        "server_front_records": sum(len(f["records"]) for f in front)})
+    if front and not sum(f.get("responses", 0) for f in front):
+        raise RuntimeError("the server front end answered nothing: the front-end part is not exercising the server")
 
 
 def search(ctx, broken):
